@@ -19,7 +19,7 @@ func init() {
 			"NOT covered: the no-loss law and quote handling of the splitter's slow path (a byte-level state machine over runtime strings).",
 		Assume:  []string{"strings.Index / strings.Split semantics"},
 		Trusted: []string{"go/types", "go/ssa"},
-		Run:     func(c *Ctx) { runC14(c); runC14Set(c); runC14Stack(c); runC14Split(c); runC14SplitterUse(c); base(c, "STATE", "ALIAS", "LABEL") },
+		Run:     func(c *Ctx) { runC14(c); runC14Set(c); runC14Stack(c); runC14Split(c); runC14SplitterUse(c); runC14Verbatim(c); base(c, "STATE", "ALIAS", "LABEL") },
 	})
 }
 
